@@ -312,7 +312,8 @@ static void op_memcpy(Case &k, ssize_t len, const std::vector<size_t> &dlens) {
   for (size_t x : dlens) { char b[16]; snprintf(b, sizeof b, "%s%zu", ds.empty() ? "" : "+", x); ds += b; }
   c.logf("memcpy(len %zd, source %zu bytes, target %s = %zu bytes): fragmented %zd, contiguous %zd, reference %zd", len, S, ds.c_str(), D, rf, ro, ref);
   CK(c, rf == ro, "memcpy-differs", "memcpy(%zd): %zd between fragment lists, %zd between contiguous blocks (source %zu, target %zu bytes)", len, rf, ro, S, D);
-  CK(c, ro == ref, "memcpy-reference", "memcpy(%zd): returned %zd, reference %zd (source %zu, target %zu bytes)", len, ro, ref, S, D);
+  // the error codes for a too short source/target are not documented: only the refusal itself is demanded
+  CK(c, ref < 0 ? ro < 0 : ro == ref, "memcpy-reference", "memcpy(%zd): returned %zd, reference %zd (source %zu, target %zu bytes)", len, ro, ref, S, D);
   Bytes want(D, (char)0xAA);
   if (ref > 0) memcpy(&want[0], k.text.data(), ref);
   Bytes gf = df.flat(), go = d1.flat();
@@ -353,7 +354,6 @@ static size_t read_both(Case &k, message &mf, message &mo, size_t len, bool with
     df = (uint8_t *)malloc(len); d1 = (uint8_t *)malloc(len);
     memset(df, 0xAA, len); memset(d1, 0xAA, len);
   }
-  size_t before = flatten(mf).size();
   size_t rf = mpt_message_read(&mf, len, df), ro = mpt_message_read(&mo, len, d1);
   Bytes gf((const char *)df, with_dest ? len : 0), go((const char *)d1, with_dest ? len : 0);
   free(df); free(d1);
@@ -369,7 +369,6 @@ static size_t read_both(Case &k, message &mf, message &mo, size_t len, bool with
       CK(c, go == w, "read-reference", "mpt_message_read(%zu) at %zu: data %s, expected %s", len, pos, show(go).c_str(), show(w).c_str());
     }
   }
-  (void)before;
   if (ro) k.reached(pos + ro - 1);
   return ro;
 }
@@ -487,7 +486,7 @@ static void source_queue(Case &k, size_t pre, size_t post, size_t slack, size_t 
   int r = mpt_message_get(&k.qu, pre, n, &m, &k.qvec);
   c.logf("queue max %zu off %zu len %zu; mpt_message_get(off %zu, take %zu) = %d", max_, off, qlen, pre, n, r);
   CK(c, r >= 0, "get-refused", "mpt_message_get(off %zu, take %zu) on a queue of %zu bytes returned %d", pre, n, qlen, r);
-  CK(c, r == (int)m.clen && m.clen <= 1, "get-parts", "mpt_message_get returned %d, message has %zu continuation parts", r, m.clen);
+  CK(c, m.clen <= 1, "get-parts", "mpt_message_get returned %d, message has %zu continuation parts for one spare iovec", r, m.clen);
   if (!m.clen) m.cont = 0;
   Bytes got = flatten(m);
   CK(c, got == k.text, "get-reference", "mpt_message_get(off %zu, take %zu): message is %zu bytes %s, queue holds %s there", pre, n, got.size(), show(got).c_str(), show(k.text).c_str());
